@@ -105,7 +105,7 @@ func atGenWhereTree(r *vc.Rand, t *atTable, depth int, params, strCols bool) (st
 
 func c18GenCase(r *vc.Rand, idx int, prefix string, onlyCare bool) *atCase {
 	c := &atCase{Name: fmt.Sprintf("%s%04d", prefix, idx), Feat: map[string]string{}}
-	pk := []string{"int", "autoinc", "composite", "varchar", "composite3", "int", "composite_txt"}[r.Intn(7)]
+	pk := []string{"int", "autoinc", "composite", "varchar", "composite3", "int", "composite_txt", "int+uq", "composite+uq", "autoinc+uq"}[r.Intn(10)]
 	kinds := atSafeKinds
 	if idx%5 == 4 {
 		kinds = atAllKinds
@@ -173,7 +173,9 @@ func c18GenCase(r *vc.Rand, idx int, prefix string, onlyCare bool) *atCase {
 		if r.Intn(3) == 0 {
 			st = atGenUpsertMulti(r, t, atStmtOpts{params: params}, &seq)
 		} else {
-			st = atGenUpsert(r, t, atStmtOpts{params: params}, r.Bool(), &seq)
+			// every fourth one also assigns the key columns their inserted values: harmless when the duplicate is on the
+			// primary key, a change of the primary key when the row is found through the secondary unique index
+			st = atGenUpsert(r, t, atStmtOpts{params: params, assignPk: r.Intn(4) == 0}, r.Intn(3) != 0, &seq)
 		}
 		st.Feat["where"] = ""
 	default: // an UPDATE that changes the primary key: must be rejected
@@ -336,6 +338,13 @@ func c18Judge(r *vc.Run, env *atEnv, c *atCase, o *atOutcome) {
 	}
 	if len(stmt.Changes) == 0 {
 		return // matched nothing / changed nothing: no image needed
+	}
+	for _, ch := range stmt.Changes {
+		if ch.Before != nil && ch.After != nil && truthRowKey(def, ch.Before) != truthRowKey(def, ch.After) {
+			r.Count("statements_that_moved_a_primary_key_accepted", 1)
+			viol("pk-change-accepted", fmt.Sprintf("the statement moved a row from primary key %q to %q and was accepted (it must be rejected: the images cannot describe a row that changes its key)", strings.ReplaceAll(truthRowKey(def, ch.Before), "\x00", ","), strings.ReplaceAll(truthRowKey(def, ch.After), "\x00", ",")))
+			return
+		}
 	}
 	if ltx.Ended != "COMMIT" {
 		viol("not-committed", fmt.Sprintf("the statement succeeded but its local transaction ended %q", ltx.Ended))
